@@ -1,7 +1,8 @@
 (* C16 -- Serialization round-trips every supported value exactly.
    Property theorems only; every proof is `exact <lemma>` (Proofs/C16_Proofs.v).
-   `encode` / `decode` mirror msgpack_serialize / msgpack_deserialize of
-   fedjax/core/serialization.py (ext-type dispatch in the order of its isinstance tests,
+   `encode` / `decode` INTERPRET the tables translated on this run from
+   fedjax/core/serialization.py (gen/Gen_serialization.v: ext-type codes, the isinstance chain of
+   _msgpack_ext_pack in source order, the steps of _ndarray_to_bytes, tuple layouts, decoders;
    (shape, dtype name, C-order bytes) triples, bytes-object arrays as (shape, flat list));
    these are the definitions the correspondence check evaluates on the real inputs.
    Trusted inverse pairs: msgpack on the document tree, numpy tobytes('C')/frombuffer,
@@ -60,10 +61,21 @@ Proof. exact sqlite_roundtrip. Qed.
 
 (* checkpoints: after save_checkpoint(state s, round r, keep >= 1) into a directory whose
    rounds are all <= r -- including a directory that ALREADY holds round r, with any state --
-   load_latest_checkpoint returns (s, r): the last save wins *)
+   the call succeeds and load_latest_checkpoint returns (s, r): the last save wins.
+   `ck_save` interprets the effect sequence translated from save_checkpoint
+   (write .tmp, rename over the final name with overwrite, remove all but the last `keep`). *)
 Theorem C16_checkpoint_last_save_wins : forall d r s keep, 1 <= keep -> Forall (fun e => fst e <= r) d ->
-  ck_load (ck_save d r s keep) = Some (r, s).
+  exists d', ck_save d r s keep = Some d' /\ ck_load d' = Some (r, s).
 Proof. exact checkpoint_last_save_wins. Qed.
+
+(* the translated tables are mutually consistent: what _ndarray_to_bytes / _bytes_ndarray_to_bytes
+   pack is what _ndarray_from_bytes / _object_ndarray_from_bytes unpack, field by field, and every
+   ext code a pack branch emits has its decoder *)
+Theorem C16_tables_consistent :
+  ndarray_tuple_fields = ndarray_unpack_fields /\ bytes_tuple_fields = bytes_unpack_fields /\
+  forallb (fun b => existsb (fun u => fst u =? snd (fst b)) unpack_dispatch) pack_dispatch = true /\
+  serialize_strict_types = true.
+Proof. exact tables_consistent. Qed.
 
 (* non-vacuity: a byte-swapped, reversed int16 view inside a dict, next to a bytes
    array, a numpy scalar and a big python int *)
@@ -77,7 +89,7 @@ Example C16_example :
                              VObj [2%nat] [OBytes []; OBytes [0; 255]]; VNpScalar F16 32768; VInt (2 ^ 64 - 1)]) /\
   roundtrip (VList [VTuple []]) = None /\ roundtrip (VInt (2 ^ 64)) = None /\
   ck_run [CkSave 0 1 1; CkSave 0 2 1; CkLoad; CkSave 5 3 2; CkSave 3 4 2; CkLoad; CkSave 5 6 1; CkLoad] [] =
-    [Some (0, 2); Some (5, 3); Some (5, 6)].
+    Some [Some (0, 2); Some (5, 3); Some (5, 6)].
 Proof. vm_compute. repeat split. Qed.
 
 Print Assumptions C16_roundtrip_supported.
@@ -88,3 +100,4 @@ Print Assumptions C16_never_altered.
 Print Assumptions C16_dispatch_total.
 Print Assumptions C16_sqlite_roundtrip.
 Print Assumptions C16_checkpoint_last_save_wins.
+Print Assumptions C16_tables_consistent.
